@@ -284,12 +284,31 @@ func (r *registry) describe(p []byte) []run {
 	i := 0
 	for i < len(p) {
 		src, off := r.identify(p[i:])
+		if src == nil && len(p)-i < 16 {
+			// too short to hold an aligned pattern word: try the start of every patterned source
+			for _, name := range r.names() {
+				ps, ok := r.get(name).(*patSource)
+				if !ok || ps.size < int64(len(p)-i) {
+					continue
+				}
+				chk := make([]byte, len(p)-i)
+				if n, _ := ps.ReadAt(chk, 0); n == len(chk) && bytes.Equal(chk, p[i:]) {
+					src, off = ps, 0
+					break
+				}
+			}
+		}
 		if src == nil {
-			// unknown byte: extend an unknown run
-			if len(runs) > 0 && len(runs[len(runs)-1].Srcs) == 0 {
+			// unknown byte: extend an unknown run (zero bytes and other bytes are kept apart:
+			// a run of zeros may be a hole of a sparse source)
+			label := []string{}
+			if p[i] == 0 {
+				label = []string{"?zero"}
+			}
+			if len(runs) > 0 && len(runs[len(runs)-1].Srcs) == len(label) && (len(label) == 0 || runs[len(runs)-1].Srcs[0] == "?zero") {
 				runs[len(runs)-1].Len++
 			} else {
-				runs = append(runs, run{Srcs: []string{}, Off: pos(0), Len: 1})
+				runs = append(runs, run{Srcs: label, Off: pos(0), Len: 1})
 			}
 			i++
 			continue
